@@ -322,6 +322,7 @@ def build():
             continue
         reach.add(f)
         todo += [c for c, _ in fns[f].edges if c in fns]
+    partial = sorted(set(x for fid in reach for x in partial_sites(fns[fid])))
     escaping_sites = set()
     for r in roots:
         escaping_sites |= esc[r]
@@ -335,10 +336,119 @@ def build():
         "escaping_sites": sorted((n, f) for n, f, _l in escaping_sites),
         "escaping": sorted({n for n, _f, _l in escaping_sites}),
         "hierarchy": hier,
+        "partial": partial,
         "roots": sorted(roots),
         "functions": len(fns),
         "reachable": len(reach),
     }
+
+
+SAFE_SEQ_CALLS = {"split", "rsplit", "partition", "rpartition"}
+EXITS = (ast.Return, ast.Raise, ast.Continue, ast.Break)
+
+
+def partial_sites(fn: Fn) -> list[tuple[str, str, str]]:
+    """Unguarded partial operations in one function: `xs[<const>]` and one-argument `next(it)`.
+
+    A site is *guarded* when the sequence expression (compared textually) occurs in the test of an
+    enclosing `if`/`while`/conditional expression/`and` chain/comprehension condition, or in the test
+    of an earlier `if` of an enclosing block whose body leaves (`raise`/`return`/`continue`/`break`),
+    or — for `next` — when it sits in a `try` that handles StopIteration. `s.split(..)[i]` and friends
+    are total for i in {0, -1}. -> (kind, function, source text)"""
+    out = []
+
+    def mentions(test, target: str) -> bool:
+        return target in ast.unparse(test)
+
+    def visit(n, guards: list):
+        if isinstance(n, (ast.FunctionDef, ast.AsyncFunctionDef, ast.ClassDef)) and n is not fn.node:
+            return
+        if isinstance(n, ast.Subscript) and isinstance(n.ctx, ast.Load):
+            idx = n.slice
+            if isinstance(idx, ast.UnaryOp) and isinstance(idx.op, ast.USub) and isinstance(idx.operand, ast.Constant):
+                idx = ast.Constant(value=-idx.operand.value)
+            if isinstance(idx, ast.Constant) and isinstance(idx.value, int):
+                base = n.value
+                safe = (isinstance(base, ast.Call) and isinstance(base.func, ast.Attribute)
+                        and base.func.attr in SAFE_SEQ_CALLS and idx.value in (0, -1))
+                target = ast.unparse(base)
+                if not safe and not any(mentions(g, target) for g in guards):
+                    out.append(("index", fn.fid, ast.unparse(n)))
+        if isinstance(n, ast.Call) and isinstance(n.func, ast.Name) and n.func.id == "next" and len(n.args) == 1 \
+                and not n.keywords:
+            if not any(isinstance(g, str) and g == "StopIteration" for g in guards):
+                out.append(("next", fn.fid, ast.unparse(n)))
+        # guard-introducing constructs
+        if isinstance(n, (ast.If, ast.While)):
+            visit(n.test, guards)
+            for s_ in n.body:
+                pass
+            block(n.body, guards + [n.test])
+            block(n.orelse, guards + [n.test])
+            return
+        if isinstance(n, ast.IfExp):
+            visit(n.test, guards)
+            visit(n.body, guards + [n.test])
+            visit(n.orelse, guards + [n.test])
+            return
+        if isinstance(n, ast.BoolOp):
+            acc = list(guards)
+            for v in n.values:
+                visit(v, acc)
+                acc = acc + [v]
+            return
+        if isinstance(n, (ast.ListComp, ast.SetComp, ast.GeneratorExp, ast.DictComp)):
+            acc = list(guards)
+            for g in n.generators:
+                visit(g.iter, acc)
+                for c in g.ifs:
+                    visit(c, acc)
+                    acc = acc + [c]
+            for part in ([n.key, n.value] if isinstance(n, ast.DictComp) else [n.elt]):
+                visit(part, acc)
+            return
+        if isinstance(n, ast.Try):
+            names = []
+            for h in n.handlers:
+                if h.type is None:
+                    names += ["StopIteration"]
+                else:
+                    ts = h.type.elts if isinstance(h.type, ast.Tuple) else [h.type]
+                    for t in ts:
+                        nm = exc_name(t)
+                        if nm in ("StopIteration", "Exception", "BaseException"):
+                            names.append("StopIteration")
+            block(n.body, guards + names)
+            for h in n.handlers:
+                block(h.body, guards)
+            block(n.orelse, guards)
+            block(n.finalbody, guards)
+            return
+        if isinstance(n, (ast.For, ast.AsyncFor)):
+            visit(n.iter, guards)
+            block(n.body, guards)
+            block(n.orelse, guards)
+            return
+        if isinstance(n, (ast.With, ast.AsyncWith)):
+            for it in n.items:
+                visit(it.context_expr, guards)
+            block(n.body, guards)
+            return
+        for ch in ast.iter_child_nodes(n):
+            visit(ch, guards)
+
+    def block(stmts, guards: list):
+        acc = list(guards)
+        for st in stmts:
+            visit(st, acc)
+            # `if <test>: … raise/return/continue/break` guards what follows in this block
+            if isinstance(st, ast.If) and st.body and isinstance(st.body[-1], EXITS):
+                acc = acc + [st.test]
+            if isinstance(st, ast.Assert):
+                acc = acc + [st.test]
+
+    block(fn.node.body, [])
+    return out
 
 
 def extract() -> dict:
@@ -358,6 +468,7 @@ def emit(res: Result) -> dict[str, str]:
             "def escapingSites : Option (List (String × String)) := none",
             "def escapingClasses : Option (List String) := none",
             "def excAncestors : Option (List (String × List String)) := none",
+            "def partialSites : Option (List (String × String × String)) := none",
         ]
     else:
         seen = set()
@@ -379,6 +490,10 @@ def emit(res: Result) -> dict[str, str]:
             + ",\n  ".join(
                 f"({lean_str(n)}, [{', '.join(lean_str(a) for a in anc)}])" for n, anc in sorted(data["hierarchy"].items())
             ) + "]",
+            "/-- unguarded partial operations (`xs[<const>]`, one-argument `next`) in reachable functions:"
+            " (kind, function, source text) -/",
+            "def partialSites : Option (List (String × String × String)) := some [\n  "
+            + ",\n  ".join(f"({lean_str(k)}, {lean_str(f)}, {lean_str(t)})" for k, f, t in data["partial"]) + "]",
         ]
     out += ["", "end Nima.Gen", ""]
     return {"Raises.lean": "\n".join(out)}
@@ -395,3 +510,5 @@ if __name__ == "__main__":
         if n not in ("ValueError",):
             print("  ", n, f)
     print(d["hierarchy"])
+    for x in d["partial"]:
+        print("  partial", x)
